@@ -86,8 +86,8 @@ const (
 	alDistinct = iota
 	alOutL
 	alOutR
-	alLR    // lhs and rhs are the same object (only when both shapes coincide)
-	alAll   // out, lhs and rhs are the same object
+	alLR  // lhs and rhs are the same object (only when both shapes coincide)
+	alAll // out, lhs and rhs are the same object
 	alCount
 )
 
